@@ -52,6 +52,7 @@ def lane(mid):
     rc, o = sh('git -C /repo worktree add --detach %s HEAD' % wt)
     if rc != 0:
         return (mid, 'worktree failed: ' + o[-200:])
+    shutil.copyfile('/repo/Cargo.lock', os.path.join(wt, 'Cargo.lock'))   # untracked in /repo
     rc, o = sh('git apply --3way %s' % os.path.join(d, 'patch.diff'), wt)
     if rc != 0:
         sh('git -C /repo worktree remove --force %s' % wt)
